@@ -16,7 +16,7 @@ import ast
 from ..model import AnalysisError, Repo, dotted, is_name, norm, walk_shallow
 from ..report import Ledger
 from ..sym import Const, Lin, State, Str, Sym, SymExec, Tup, as_lin, NotNumeric
-from ..util import paths
+from ..util import end_pos, pos, paths
 
 PROP = "C11"
 LEVEL = "other"
@@ -203,7 +203,7 @@ def _r2(repo, L):
     nexts = [n for n in walk_shallow(f.node) if isinstance(n, ast.Assign) and isinstance(n.value, ast.Call) and dotted(n.value.func) == "next"]
     loops = [n for n in walk_shallow(f.node) if isinstance(n, ast.While | ast.For)]
     if len(jcalls) == 1 and len(adds) == 1 and len(nexts) == 2 and len(loops) == 1:
-        first, second = sorted(nexts, key=lambda n: n.lineno)
+        first, second = sorted(nexts, key=pos)
         prev_v, this_v = first.targets[0].id, second.targets[0].id
         itr_v = norm(first.value.args[0])
         itr_def = [n for n in walk_shallow(f.node) if isinstance(n, ast.Assign) and norm(n.targets[0]) == itr_v]
@@ -484,7 +484,7 @@ def _r5(repo, L):
         argv = call_wy[0].args[2] if len(call_wy[0].args) > 2 else None
         renamed_var = ren[0].targets[0].id if isinstance(ren[0].targets[0], ast.Name) else None
         if isinstance(argv, ast.Name) and argv.id == renamed_var:
-            ok2 = call_wy[0].lineno < ren[0].lineno
+            ok2 = pos(call_wy[0]) < pos(ren[0])
             why2 = "info yaml is written after the assemblies were renamed for output: the 'Haplotig' key no longer exists in single-haplotype maps and the count is always 0"
         elif isinstance(argv, ast.Name):
             ok2 = True
